@@ -13,7 +13,7 @@ RULE = ("(a) generated schemas using sectiontype extends (chains up to 3, key ty
         "mixed-case keys) against their mechanical expansion (base children first, implements not inherited): equal structural "
         "digest and equal outcome on the C01 texts; (b) prefixes (schema / sectiontype / component level, absolute and relative, "
         "nested 3 deep) against absolute dotted names over generated datatype packages; (c) schema-level extends of 1..3 bases "
-        "against the merged schema; (d) component imports once / repeated / diamond against defining the types in place. "
+        "against the merged schema; (d) component imports once / repeated / diamond / mutually importing / self-importing against defining the types in place. "
         "non-trivial = composed schema with >= 1 derived or prefixed item; distinct by document")
 
 
@@ -262,6 +262,52 @@ def _components(ctx, rng, pk):
     except Exception as e:
         ctx.notes.append("in-place reference schema failed: %s" % e)
         return
+    # components that import each other, and one that imports itself: every path that leads back to a component
+    # already being read must find it defined once ("once, repeatedly or along several paths")
+    cya, cyb, cys = pk.fresh_name("zcvcya"), pk.fresh_name("zcvcyb"), pk.fresh_name("zcvcys")
+    for name, other, tname in ((cya, cyb, "cya"), (cyb, cya, "cyb"), (cys, cys, "cys")):
+        d = _os.path.join(pk.root, name)
+        _os.makedirs(d)
+        open(_os.path.join(d, "__init__.py"), "w").write("")
+        open(_os.path.join(d, "component.xml"), "w").write(
+            "<component><import package='%s'/><import package='%s'/><sectiontype name='%s' extends='cbase' implements='cab'>"
+            "<key name='%s'/></sectiontype><import package='%s'/></component>" % (base, other, tname, tname, other))
+        pk.names.append(name)
+    cyc_inplace = ("<schema><abstracttype name='cab'/><sectiontype name='cbase'><key name='k' datatype='integer' default='1'/></sectiontype>"
+                   "%%s%s</schema>" % body)
+
+    def _ty(n):
+        return "<sectiontype name='%s' extends='cbase' implements='cab'><key name='%s'/></sectiontype>" % (n, n)
+    cyc_variants = [
+        ("<schema><import package='%s'/>%s</schema>" % (cya, body), cyc_inplace % (_ty("cyb") + _ty("cya"))),
+        ("<schema><import package='%s'/><import package='%s'/>%s</schema>" % (cyb, cya, body), cyc_inplace % (_ty("cya") + _ty("cyb"))),
+        ("<schema><import package='%s'/><import package='%s'/>%s</schema>" % (cys, cys, body), cyc_inplace % _ty("cys")),
+    ]
+    for v, inpl in cyc_variants:
+        ctx.evaluations += 1
+        ctx.nontriv(v)
+        try:
+            r2 = _load(inpl)
+        except Exception as e:
+            ctx.notes.append("in-place reference schema (cyclic) failed: %s" % e)
+            continue
+        try:
+            a = _load(v)
+        except Exception as e:
+            ctx.violate("a schema importing components that import each other failed to load: %s: %s" % (type(e).__name__, str(e)[:200]),
+                        {"composed": v, "expanded": inpl}, signature="C11:import-cycle:load")
+            continue
+        if enc(F.digest(a)[1:3]) != enc(F.digest(r2)[1:3]):
+            ctx.violate("a schema importing components that import each other differs from defining the types in place",
+                        {"composed": v, "expanded": inpl}, signature="C11:import-cycle:structure")
+            continue
+        for t in ["", "<cya>\nk 3\ncya x\n</cya>\n<cyb/>\n", "<cys/>\n<cys>\ncys 1\n</cys>\n", "<cbase/>\n", "<cyb>\nk bad\n</cyb>\n"]:
+            ra, rb = _behaves(a, t), _behaves(r2, t)
+            ctx.evaluations += 1
+            if ra != rb:
+                ctx.violate("a schema importing mutually importing components behaves differently from defining the types in place on %r: %r vs %r" % (t, ra, rb),
+                            {"composed": v, "expanded": inpl, "text": t}, signature="C11:import-cycle:behaviour")
+                break
     for v in variants:
         ctx.evaluations += 1
         ctx.nontriv(v)
